@@ -1219,7 +1219,10 @@ def accepted_means_handed_on(ctx) -> None:
         for k_acc, (ret, bad, bad_atoms) in enumerate(sites):
             # name the site by the calls whose outcome separates the losing paths from every path that does hand the packet on
             # (an ordinal would shift, and with it the ledger key, whenever a confirmation is added before this one)
-            names = sorted({m_ for a in bad_atoms - good_atoms for m_ in re.findall(r"self\.(?:\w+\.)*(\w+)\(", a)})
+            encl = [n_ for n_ in ast.walk(fi.node) if isinstance(n_, ast.If) and any(ret is x for b_ in n_.body for x in ast.walk(b_))]
+            names = sorted({m_ for n_ in encl for m_ in re.findall(r"self\.(?:\w+\.)*(\w+)\(", unparse(n_.test))})
+            if not names:
+                names = sorted({m_ for a in bad_atoms - good_atoms for m_ in re.findall(r"self\.(?:\w+\.)*(\w+)\(", a)})
             disc = "+".join(names) if names else f"#{k_acc}"
             if disc in used:
                 disc = f"{disc}#{k_acc}"
